@@ -270,20 +270,70 @@ def min_boundary(rep, F, rule='R-TABLE'):
     return n
 
 
+def is_integer_table(rep, F, rule='R-TABLE'):
+    """is_integer: true outright only for scale <= 0; otherwise decided by int_val % 10^scale == 0 (the fractional digits).
+    A fast path outside these two rows is reported as undecided, never as a violation."""
+    fn = F.fns.get('BigDecimal::is_integer')
+    if fn is None:
+        rep.violation(rule, 'BigDecimal::is_integer:missing', 'anchor function not found (fail closed)')
+        return 0
+    try:
+        paths = TB.PathEnum(F, fn, max_paths=32).run()
+    except Undecided as e:
+        rep.undecided(rule, fn.key + ':table', str(e), fn.where())
+        return 0
+    n = 0
+    for atoms, out in paths:
+        strs = [(TB.show(TB.strip_refs(a[0])), a[1]) for a in atoms]
+        o = TB.show(TB.strip_refs(out))
+        nonpos = None
+        extra = []
+        for s, c in strs:
+            truth = not (c == ('eq', 0))
+            if s == 'Le(arg1.scale,0)':
+                nonpos = truth
+            elif s == 'Gt(arg1.scale,0)':
+                nonpos = not truth
+            elif s == 'Lt(arg1.scale,0)' and truth:
+                nonpos = True
+            else:
+                extra.append(s)
+        if extra or nonpos is None:
+            rep.undecided(rule, fn.key + ':table[%s]' % ';'.join(e[:30] for e in extra), 'row outside the table (fast path): not decided', fn.where())
+            continue
+        n += 1
+        key = fn.key + ':table[scale%s0]' % ('<=' if nonpos else '>')
+        if nonpos:
+            if o == '1':
+                rep.ok(rule, key, 'no fractional digits: true', fn.where())
+            else:
+                rep.violation(rule, key, 'a decimal with scale <= 0 has no fractional digits and is an integer; this row returns %s' % o[:60], fn.where())
+        else:
+            if re.match(r'^is_zero\(rem\((clone\()?arg1\.int_val\)?,ten_to_the(_uint)?\(cast\(arg1\.scale\)\)\)\)$', o):
+                rep.ok(rule, key, 'fractional part = int_val % 10^scale, tested for zero', fn.where())
+            elif o in ('0', '1'):
+                rep.violation(rule, key, 'for scale > 0 the answer depends on the fractional digits; this row returns the constant %s' % o, fn.where())
+            else:
+                rep.violation(rule, key, 'the fractional part of int_val*10^-scale is int_val %% 10^scale; this row tests %s' % o[:90], fn.where())
+    return n
+
+
 def run(ctx):
     rep = ctx.rep
     rep.explanation = ('Static MIR analysis. R-TABLE: the (sign, scale==0) dispatch of to_i64/to_i128/to_u64/to_u128 on BigDecimalRef is extracted from the '
                        'CFG: Minus->None for unsigned, NoSign->Some(0), every other cell ends in a checked integer conversion of the digits or of the '
                        'value truncated to scale 0. R-FWD: owned ToPrimitive methods return the same-named method of self.to_ref(). R-PROJ: the 20 '
                        'From<int>/From<&int>, From<BigInt>, From<(T,i64)>, FromPrimitive::from_i*/u* and ToBigInt are exact projections (scale literal 0). '
-                       'R-NOCALL: no flooring/euclidean division is reachable from the conversions or the truncating rescale. The MIN boundary of to_i64/to_i128 (d < 2^(W-1) -> -(d as iW), == -> MIN, > -> None) is a 3-cell table with the boundary constant evaluated from its literal arithmetic. NOT decided: '
-                       'is_integer.')
+                       'R-NOCALL: no flooring/euclidean division is reachable from the conversions or the truncating rescale. The MIN boundary of to_i64/to_i128 (d < 2^(W-1) -> -(d as iW), == -> MIN, > -> None) is a 3-cell table with the boundary constant evaluated from its literal arithmetic. is_integer is a 2-row table (scale <= 0 -> true; otherwise int_val % 10^scale == 0); a fast path outside it is undecided. NOT decided: '
+                       'the remainder arithmetic of num-bigint.')
     F = ctx.facts('default', 'rel')
     n1 = sign_tables(rep, F)
     n2 = owned_forwarders(rep, F)
     n3 = projections(rep, F)
     nf, nc = no_flooring(rep, F)
     nmb = min_boundary(rep, F)
+    nii = is_integer_table(rep, F)
+    rep.floor('is_integer rows', nii, 2)
     rep.floor('MIN-boundary closures', nmb, 2)
     rep.floor('sign-dispatch cells', n1, 36)
     rep.floor('owned forwarders', n2, 5)
